@@ -28,8 +28,8 @@ import (
 type teleStub struct{}
 
 func (teleStub) CreateUpdateObservableHistogram(name, description string) {}
-func (teleStub) RecordHistogramTime(name string, t time.Duration) bool     { return true }
-func (teleStub) RecordHistogramValue(name string, f float64) bool          { return true }
+func (teleStub) RecordHistogramTime(name string, t time.Duration) bool    { return true }
+func (teleStub) RecordHistogramValue(name string, f float64) bool         { return true }
 
 // flashStub never throttles and never remembers.
 type flashStub struct{}
@@ -58,7 +58,7 @@ func (p *pipeSink) SendVrx(v *accountant.Vertex) bool {
 	return true
 }
 func (p *pipeSink) SubscribeToTrx() <-chan *protobufcompiled.Transaction { return nil }
-func (p *pipeSink) SubscribeToVrx() <-chan *accountant.Vertex           { return nil }
+func (p *pipeSink) SubscribeToVrx() <-chan *accountant.Vertex            { return nil }
 
 type svc struct {
 	w        *sim.World
